@@ -20,18 +20,57 @@ def _impl():
     return impl
 
 
+N_CALLS = 5
+
+
+def make_caller(impl):
+    """Library calls that are not context-manager events (the model's [Call]): built once per run while gradient mode is
+    on; call(k) may be issued in any mode.  Refusals are caught here - they are part of the call."""
+    np, sg = impl.np, impl.synapgrad
+    x = sg.Tensor(np.array([1.0, -2.0, 3.0]), requires_grad=True)
+    y = (x * 2.0).exp()
+    root = y.sum()
+    const = sg.Tensor(np.array([1.0, 2.0]))
+
+    def call(k):
+        k = k % N_CALLS
+        if k == 0:
+            root.backward()                                  # completes (graph built earlier, with tracking on)
+        elif k == 1:
+            try:
+                y.backward(sg.Tensor(np.ones((2, 2))))       # refused after the graph walk: wrong gradient shape
+            except (RuntimeError, ValueError, AssertionError):
+                pass
+        elif k == 2:
+            try:
+                (const * 3.0).backward()                     # refused: result does not require grad
+            except RuntimeError:
+                pass
+        elif k == 3:
+            t = sg.Tensor(np.array([0.5, 1.5]), requires_grad=True)
+            r = (t * t + const).sum()
+            if r.requires_grad:
+                r.backward()
+        else:
+            y.backward(sg.Tensor(np.array([1.0, 0.0, -1.0])))  # non-scalar root with an explicit gradient
+    return call
+
+
 def run_events_impl(events):
-    """events: list of ('New',k) | ('Enter',o) | ('Exit',o,exc). Returns (executed_events, observations)."""
+    """events: list of ('New',k) | ('Enter',o) | ('Exit',o,exc) | ('Call',k). Returns (executed_events, observations)."""
     impl = _impl()
     impl.reset_modes()
     sg = impl.synapgrad
     objs = []
     obs = []
     done = []
+    call = make_caller(impl)
     for e in events:
         try:
             if e[0] == "New":
                 objs.append(sg.no_grad() if e[1] == 0 else sg.retain_grads())
+            elif e[0] == "Call":
+                call(e[1])
             elif e[0] == "Enter":
                 objs[e[1]].__enter__()
             else:
@@ -57,6 +96,8 @@ def ev_coq(e):
         return "New %s" % KINDS[e[1]]
     if e[0] == "Enter":
         return "Enter %d" % e[1]
+    if e[0] == "Call":
+        return "Call"
     return "Exit %d %s" % (e[1], cb(e[2]))
 
 
@@ -81,6 +122,8 @@ def enumerate_sequences(max_len, max_objs, rng):
         for o in range(nobj):
             alphabet.append(("Enter", o))
             alphabet.append(("Exit", o, rng.random() < 0.5))
+        if prefix and prefix[-1][0] != "Call":
+            alphabet.append(("Call", rng.randrange(N_CALLS)))
         for a in alphabet:
             prefix.append(a)
             rec(prefix, nobj + (1 if a[0] == "New" else 0))
@@ -128,6 +171,11 @@ class Prog:
             c = self.rng.random()
             if c < 0.25 and self.nobj < 6:
                 self.new_obj(ind, self.rng.randint(0, 1))
+            elif c < 0.5:
+                k = self.rng.randrange(N_CALLS)
+                self.lines.append("    " * ind + "call(%d)" % k)
+                self.events.append((("Call", k), True))
+                self.lines.append("    " * ind + "rec()")
             elif depth < self.max_depth:
                 self.block(depth, ind)
         self.lines.append("    " * ind + "pass")
@@ -169,7 +217,7 @@ class Prog:
             self.lines.append(pad + "rec()")
 
     def source(self):
-        return "def program(sg, rec, Boom):\n" + "\n".join("    " + l for l in self.lines) + "\n"
+        return "def program(sg, rec, Boom, call):\n" + "\n".join("    " + l for l in self.lines) + "\n"
 
 
 def run_prog_impl(p):
@@ -186,7 +234,7 @@ def run_prog_impl(p):
     exec(p.source(), ns)
     err = None
     try:
-        ns["program"](impl.synapgrad, rec, Boom)
+        ns["program"](impl.synapgrad, rec, Boom, make_caller(impl))
     except Exception as ex:      # a well-bracketed program must not fail
         err = repr(ex)
     impl.reset_modes()
@@ -219,6 +267,9 @@ def judge_prog(p, obs, err):
             return "mode inside block is %s, expected %s" % (inside, want_inside)
         if after != b:
             return "mode after block is %s, mode before its Enter was %s" % (after, b)
+    for i, (e, seen) in enumerate(p.events):
+        if e[0] == "Call" and obs[idx[i]] != before(i):
+            return "call(%d) (a backward call / tensor creation, no context manager involved) changed the modes from %s to %s" % (e[1], before(i), obs[idx[i]])
     return None
 
 
